@@ -83,6 +83,56 @@ theorem deepcopyL_mem : ∀ (l : List CVal) (n : Nat) (l' : List CVal) (n' : Nat
         · obtain ⟨kid, h1, h2⟩ := ih.2 kid' hk
           exact ⟨kid, by simp [h1], h2⟩
 
+mutual
+/-- Whenever `copy.deepcopy` of a value succeeds it builds only new container objects. -/
+theorem deepcopyV_ids : ∀ (v : CVal) (n : Nat) (v' : CVal) (n' : Nat), deepcopyV n v = .ok (v', n') →
+    n ≤ n' ∧ ∀ i ∈ ids v', n ≤ i ∧ i < n'
+  | .leaf a, n, v', n', h => by
+    simp only [deepcopyV] at h
+    cases h
+    exact ⟨Nat.le_succ _, by simp [ids]⟩
+  | .node k i b keys kids, n, v', n', h => by
+    simp only [deepcopyV] at h
+    split at h
+    · cases h
+    · rename_i kids' n2 hk
+      have ih := deepcopyL_ids kids (n + 1) kids' n2 hk
+      have idsok : ∀ b', ∀ j ∈ ids (CVal.node k n b' (keys.map (Leaf.copiedAt n)) kids'), n ≤ j ∧ j < n2 := by
+        intro b' j hj
+        simp only [ids, List.mem_cons] at hj
+        rcases hj with rfl | hj
+        · exact ⟨Nat.le_refl _, by omega⟩
+        · have := ih.2 j hj; omega
+      cases b with
+      | plain => simp only at h; cases h; exact ⟨by omega, idsok _⟩
+      | detached via => simp at h
+      | ownerless sh => simp only at h; cases h; exact ⟨by omega, idsok _⟩
+      | bound o sh => simp only at h; cases h; exact ⟨by omega, idsok _⟩
+theorem deepcopyL_ids : ∀ (l : List CVal) (n : Nat) (l' : List CVal) (n' : Nat), deepcopyL n l = .ok (l', n') →
+    n ≤ n' ∧ ∀ i ∈ idsL l', n ≤ i ∧ i < n'
+  | [], n, l', n', h => by
+    simp only [deepcopyL] at h
+    cases h
+    exact ⟨Nat.le_refl _, by simp [idsL]⟩
+  | v :: vs, n, l', n', h => by
+    simp only [deepcopyL] at h
+    split at h
+    · cases h
+    · rename_i v' n1 hv
+      split at h
+      · cases h
+      · rename_i vs' n2 hvs
+        cases h
+        have a := deepcopyV_ids v n v' n1 hv
+        have b := deepcopyL_ids vs n1 vs' _ hvs
+        refine ⟨by omega, ?_⟩
+        intro j hj
+        simp only [idsL, List.mem_append] at hj
+        rcases hj with hj | hj
+        · have := a.2 j hj; omega
+        · have := b.2 j hj; omega
+end
+
 /-- A deep copy of a valid value is valid for the same trait. -/
 theorem deepcopyV_valid {E : Env} (hC : CopyStable E) {sh : Shape} {v : CVal} (h : Valid E sh v) :
     ∀ n v' n', deepcopyV n v = .ok (v', n') → Valid E sh v' := by
@@ -185,38 +235,52 @@ theorem readSlot_ids {E : Env} {sl : Slot} {n m : Nat}
 
 /-- One iteration in deep mode, with the identity ranges: the source slot only
 gains identities allocated before `mid`, the clone's slot holds only identities
-allocated from `mid` on. -/
+allocated from `mid` on - also when the deep copy raises (a detached container:
+the slot is then left unset, finding F71, and shares nothing either). -/
 theorem cloneSlot_deep_ranges {E : Env} (hI : Idem E) (hC : CopyStable E) {src : Slot} (hw : WFSlot E src)
-    (hc : src.decl.copyable = true) (hk : src.decl.kind ≠ .event) {arg : Option CopyMode}
-    (hm : effMode src.decl.copy arg = .deep) (oS oD n m : Nat) (all : Bool)
-    (hb : (∀ i ∈ slotIds src, i < m) ∧ (∀ i ∈ ids src.decl.dflt, i < m))
-    (hd : NoDetached (readSlot E oS n src).1) :
+    (hc : src.decl.copyable = true ∨ (all = true ∧ src.decl.kind ≠ .event)) (hk : src.decl.kind ≠ .event)
+    {arg : Option CopyMode}
+    (hm : effMode src.decl.copy arg = .deep) (oS oD n m : Nat)
+    (hb : (∀ i ∈ slotIds src, i < m) ∧ (∀ i ∈ ids src.decl.dflt, i < m)) :
     ∃ mid, n ≤ mid ∧ mid ≤ (cloneSlot E oS oD arg all n src).2.2 ∧
       (∀ i ∈ slotIds (cloneSlot E oS oD arg all n src).2.1, i < m ∨ (n ≤ i ∧ i < mid)) ∧
       (∀ i ∈ slotIds (cloneSlot E oS oD arg all n src).1, mid ≤ i ∧ i < (cloneSlot E oS oD arg all n src).2.2) := by
   obtain ⟨hv, _, _, _⟩ := readSlot_spec hI hw oS n
-  obtain ⟨u, n1, h1, h2, h3, h4⟩ := deepcopyV_spec _ (readSlot E oS n src).2.2 hd
-  have hvu := deepcopyV_valid hC hv _ _ _ h1
-  obtain ⟨w, n2, h5, h6⟩ := validate_of_valid hvu oD n1
-  have hl := validate_ids oD _ _ _ _ _ h5
   have hr := readSlot_ids (E := E) (n := n) hb oS
-  have e : cloneSlot E oS oD arg all n src = (⟨src.decl, some w⟩, (readSlot E oS n src).2.1, n2) := by
-    simp [cloneSlot, hc, hm, copyValue, h1, assignSlot_fresh src.decl hk, h5]
-  rw [e]
-  refine ⟨(readSlot E oS n src).2.2, hr.2, by simp only; omega, hr.1, ?_⟩
-  intro i hi
-  have hi' : i ∈ ids w := by simpa [slotIds] using hi
-  rcases hl.2 i hi' with h | h
-  · simp only; omega
-  · have := h3 i h
-    simp only; omega
+  have hcb : (src.decl.copyable || (all && src.decl.kind != .event)) = true := by
+    rcases hc with h | ⟨h1, h2⟩
+    · simp [h]
+    · simp [h1, h2]
+  cases h1 : deepcopyV (readSlot E oS n src).2.2 (readSlot E oS n src).1 with
+  | error e =>
+    have e' : cloneSlot E oS oD arg all n src = (⟨src.decl, none⟩, (readSlot E oS n src).2.1,
+        (readSlot E oS n src).2.2) := by
+      simp [cloneSlot, hcb, hm, copyValue, h1]
+    rw [e']
+    exact ⟨(readSlot E oS n src).2.2, hr.2, Nat.le_refl _, hr.1, fun i hi => by simp [slotIds] at hi⟩
+  | ok r =>
+    obtain ⟨u, n1⟩ := r
+    have hu := deepcopyV_ids _ _ _ _ h1
+    have hvu := deepcopyV_valid hC hv _ _ _ h1
+    obtain ⟨w, n2, h5, h6⟩ := validate_of_valid hvu oD n1
+    have hl := validate_ids oD _ _ _ _ _ h5
+    have e' : cloneSlot E oS oD arg all n src = (⟨src.decl, some w⟩, (readSlot E oS n src).2.1, n2) := by
+      simp [cloneSlot, hcb, hm, copyValue, h1, assignSlot_fresh src.decl hk, h5]
+    rw [e']
+    refine ⟨(readSlot E oS n src).2.2, hr.2, by simp only; omega, hr.1, ?_⟩
+    intro i hi
+    have hi' : i ∈ ids w := by simpa [slotIds] using hi
+    rcases hl.2 i hi' with h | h
+    · simp only; omega
+    · have := hu.2 i h
+      simp only; omega
 
-/-- What `clone_traits(copy='deep')` needs of a slot for the clauses below. -/
-structure DeepOK (E : Env) (oS : Nat) (arg : Option CopyMode) (all : Bool) (sl : Slot) : Prop where
+/-- What the no-sharing clause needs of a slot: well-formed, and - if it is one
+of the slots that get copied - copied in deep mode (no `copy="ref"` /
+`copy="shallow"` metadata, which ask for sharing). -/
+structure DeepOK (E : Env) (arg : Option CopyMode) (all : Bool) (sl : Slot) : Prop where
   wf : WFSlot E sl
-  /-- copied slots are copied deeply and hold no detached container -/
-  deep : sl.decl.copyable = true ∨ (all = true ∧ sl.decl.kind ≠ .event) →
-    effMode sl.decl.copy arg = .deep ∧ sl.decl.copyable = true ∧ ∀ n, NoDetached (readSlot E oS n sl).1
+  deep : sl.decl.copyable = true ∨ (all = true ∧ sl.decl.kind ≠ .event) → effMode sl.decl.copy arg = .deep
 
 /-- **No sharing under `clone_traits(copy='deep')`** (and under `copy="deep"`
 metadata with any `copy` argument): no container object of the clone is a
@@ -224,7 +288,7 @@ container object of the source - neither one that existed before, nor a default
 the cloning materialised in the source. -/
 theorem cloneL_no_sharing {E : Env} (hI : Idem E) (hC : CopyStable E) (oS oD m : Nat) (arg : Option CopyMode)
     (all : Bool) :
-    ∀ (slots : List Slot) (n : Nat), m ≤ n → BelowAll m slots → (∀ sl ∈ slots, DeepOK E oS arg all sl) →
+    ∀ (slots : List Slot) (n : Nat), m ≤ n → BelowAll m slots → (∀ sl ∈ slots, DeepOK E arg all sl) →
       n ≤ (cloneL E oS oD arg all n slots).2.2 ∧
       (∀ a ∈ (cloneL E oS oD arg all n slots).2.1, ∀ i ∈ slotIds a,
         i < m ∨ (n ≤ i ∧ i < (cloneL E oS oD arg all n slots).2.2)) ∧
@@ -245,10 +309,12 @@ theorem cloneL_no_sharing {E : Env} (hI : Idem E) (hC : CopyStable E) (oS oD m :
         (∀ i ∈ slotIds (cloneSlot E oS oD arg all n sl).1,
           mid ≤ i ∧ i < (cloneSlot E oS oD arg all n sl).2.2) := by
       by_cases hcopy : sl.decl.copyable = true ∨ (all = true ∧ sl.decl.kind ≠ .event)
-      · obtain ⟨h1, h2, h3⟩ := hds.deep hcopy
+      · have h1 := hds.deep hcopy
         have hk : sl.decl.kind ≠ .event := by
-          intro hk; simp [Decl.copyable, hk] at h2
-        exact cloneSlot_deep_ranges hI hC hds.wf h2 hk h1 oS oD n m all hbs (h3 n)
+          rcases hcopy with h | h
+          · intro hk; simp [Decl.copyable, hk] at h
+          · exact h.2
+        exact cloneSlot_deep_ranges hI hC hds.wf hcopy hk h1 oS oD n m hbs
       · have hn : (sl.decl.copyable || (all && sl.decl.kind != .event)) = false := by
           cases hc : sl.decl.copyable
           · cases ha : all
